@@ -19,7 +19,8 @@ func TestProp(t *testing.T) {
 		"selection depth = nesting of selection sets inside one operation/fragment definition; field count = field nodes of the whole document",
 		"inputs up to 64 KiB; value/selection nesting far below the stack-exhaustion range (stated bound of DESIGN §4 C05)",
 	)
-	r.RequireLabel("bytes:accepted", "bytes:accepted-with->=5-nodes-of->=3-kinds", "docs:differential", "docs:kind:exec", "docs:kind:schema",
+	r.RequireLabel("bytes:accepted", "bytes:accepted-with->=5-nodes-of->=3-kinds", "docs:differential", "docs:kind:exec", "docs:kind:schema", "docs:kind:mixed", "docs:adjacent:definition-then-anonymous-query", "docs:adjacent:extend-schema", "docs:adjacent:query-keyword-required", "docs:adjacent:shorthand",
+		"docs:adjacent:lookalike-root-operation-types",
 		"limits:over-depth", "limits:over-fields", "limits:within")
 	r.Regress(dispatch())
 	r.RunProbes(probes())
